@@ -63,7 +63,8 @@ RULE = (
     "plus a deterministic constraint stream: every constraint-owning existing_type (5) x subset of the non-type attributes (32) x "
     "with/without type_ x dialect x schema = 4480 calls judged by Spec.Alter.constraintOk; a kinds battery (type classes, '' / "
     "func.now() / DefaultClause defaults, schema '' / quoted_name, postgresql_using '') and a configuration battery (literal_binds, "
-    "transactional_ddl, empty/overridden batch separators), a type-pairs battery (closely related type_/existing_type pairs, both "
+    "transactional_ddl, empty/overridden batch separators), a defaults battery (SQL-expression defaults containing Python literals as requested / "
+    "stated-existing default; the expected text is SQLAlchemy's own literal-bound rendering), a type-pairs battery (closely related type_/existing_type pairs, both "
     "directions x extra requested attribute) each crossed with all 64 requested subsets x 7 dialects; a names battery "
     "on every dialect (column / new names of the identifier-quoting classes -- mixed case, reserved word, space, quote character, the "
     "dialect's closing delimiter -- and table / schema names 'My Table' / 'select' / 'My Schema': 64 subsets x 2 x 6 names x 7 dialects = "
@@ -439,6 +440,22 @@ def type_pairs_battery(rng):
                         yield dialect, req
 
 
+def defaults_battery(rng):
+    """SQL-expression server defaults that contain Python literals (coalesce(col, 0), concat('ab','cd'), CAST(0 AS ..),
+    literal(42), DefaultClause-wrapped): as the requested default and as the stated existing default that the MySQL
+    family restates, alone and with nullable / type / rename, every dialect"""
+    for dialect in ai.DIALECTS:
+        for key in ai.DEFAULT_KEYS_EXPR:
+            for role in ("server_default", "ex_default"):
+                for extra in ((), ("nullable",), ("type",), ("new_name",), ("nullable", "type", "new_name")):
+                    for stated in (("ex_type",), tuple(EX_ATTRS)):
+                        requested = extra + (("server_default",) if role == "server_default" else ())
+                        st = tuple(stated) + (("ex_default",) if role == "ex_default" and "ex_default" not in stated else ())
+                        req = draw_values(rng, requested, st, False, False)
+                        req[role] = {"k": "set", "v": key}
+                        yield dialect, req
+
+
 def config_battery(rng):
     """context configurations (literal_binds, transactional_ddl given, batch separators overridden/empty): the emitted
     statements must not depend on them -- every requested subset x (nothing stated | everything stated) x schema"""
@@ -480,6 +497,9 @@ def run(ctx, rng_name="main", draws=None, budget_s=None):
     for dialect, req in type_pairs_battery(ctx.rng(rng_name + "/typepairs")):
         b.add(dialect, req)
         ctx.hist("stream", "typepairs")
+    for dialect, req in defaults_battery(ctx.rng(rng_name + "/defaults")):
+        b.add(dialect, req)
+        ctx.hist("stream", "defaults")
     for dialect, req in config_battery(ctx.rng(rng_name + "/config")):
         b.add(dialect, req)
         ctx.hist("stream", "config:" + req["config"])
